@@ -504,13 +504,14 @@ Qed.
 
 (* ---------- RDATA by schema ---------- *)
 Definition piece_wf (o : option name) (p : piece) : Prop :=
-  match p with PB _ => True | PN n | PU n => name_wf o n end.
+  match p with PB _ => True | PN n | PU n | PX n => name_wf o n end.
 
 Definition piece_ci (a b : piece) : Prop :=
   match a, b with
   | PB x, PB y => x = y
   | PN x, PN y => ci_equal x y
   | PU x, PU y => ci_equal x y
+  | PX x, PX y => x = y
   | _, _ => False
   end.
 Definition rdata_ci (a b : rdata) : Prop := Forall2 piece_ci a b.
@@ -533,7 +534,8 @@ Inductive shaped : list fld -> rdata -> Prop :=
 | sh_txt b : txt_ok b -> shaped [FTxt] [PB b]
 | sh_cnt8 d fs r : zlen d <= 255 -> shaped fs r -> shaped (FCnt8 :: fs) (PB (zlen d :: d) :: r)
 | sh_rest1 b : b <> [] -> shaped [FRest1] [PB b]
-| sh_chk k b : chk k b = true -> shaped [FChk k] [PB b].
+| sh_chk k b : chk k b = true -> shaped [FChk k] [PB b]
+| sh_namex n fs r : shaped fs r -> shaped (FNameX :: fs) (PX n :: r).
 
 Lemma txt_loop_ok : forall ss pre post fuel endp count,
   Forall (fun s => zlen s <= 255) ss ->
@@ -573,6 +575,22 @@ Qed.
 Lemma rdata_ci_refl_pb b r r' : rdata_ci r' r -> rdata_ci (PB b :: r') (PB b :: r).
 Proof. intros H. constructor; [reflexivity|exact H]. Qed.
 
+(* names written without compression come back with exactly their labels *)
+Lemma full_labels_inj o n n' L :
+  name_wf o n -> name_wf o n' -> ci_equal n' n -> full_labels n o = Ok L -> full_labels n' o = Ok L -> n' = n.
+Proof.
+  intros NW NW' CI HF HF'.
+  destruct NW as [((V & A) & NS)|(org & -> & A & V)]; destruct NW' as [((V' & A') & NS')|(org' & E' & A' & V')].
+  - unfold full_labels in HF, HF'. rewrite A in HF. rewrite A' in HF'. cbn [bind] in HF, HF'.
+    rewrite (mk_name_valid _ V) in HF. rewrite (mk_name_valid _ V') in HF'. congruence.
+  - rewrite (ci_equal_absolute _ _ CI) in A'. congruence.
+  - rewrite (ci_equal_absolute _ _ CI) in A'. congruence.
+  - injection E' as <-. unfold full_labels in HF, HF'. rewrite A in HF. rewrite A' in HF'.
+    destruct (is_absolute org); [|discriminate]. cbn [bind] in HF, HF'.
+    rewrite (mk_name_valid _ V) in HF. rewrite (mk_name_valid _ V') in HF'.
+    assert (E : n' ++ org = n ++ org) by congruence. apply app_inv_tail in E. exact E.
+Qed.
+
 Lemma rd_em_read o : org_ok o -> forall fs rd, shaped fs rd ->
   forall c file t em t',
     TableSound file t -> Forall (piece_wf o) rd -> rd_em rd o c (zlen file) t = Ok (em, t') ->
@@ -583,7 +601,7 @@ Lemma rd_em_read o : org_ok o -> forall fs rd, shaped fs rd ->
         = Ok (rev acc ++ rd', length (file ++ em))) /\
       (forall tq, tbl_ci tq t -> exists tq', rd_em rd' o c (zlen file) tq = Ok (em, tq') /\ tbl_ci tq' t').
 Proof.
-  intros OO fs rd S. induction S as [|n b fs r Hb S IH|n fs r S IH|n fs r S IH|n fs r NOa S IH|b|d fs r Hd S IH|mx v fs r Hv Hv2 S IH|b Hb|d fs r Hd S IH|b Hne|k b Hck];
+  intros OO fs rd S. induction S as [|n b fs r Hb S IH|n fs r S IH|n fs r S IH|n fs r NOa S IH|b|d fs r Hd S IH|mx v fs r Hv Hv2 S IH|b Hb|d fs r Hd S IH|b Hne|k b Hck|n fs r S IH];
     intros c file t em t' TS PO H.
   - injection H as <- <-. rewrite app_nil_r. split; [exact TS|]. exists []. split; [constructor|]. split; [constructor|]. split; [constructor|]. split.
     + intros ext acc. cbn [dec_fields]. rewrite app_nil_r. reflexivity.
@@ -778,6 +796,29 @@ Proof.
     intros ext acc. cbn [dec_fields].
     replace (length (file ++ b) - length file)%nat with (length b) by (rewrite app_length; lia).
     rewrite <- app_assoc. rewrite rd_bytes_at by (rewrite app_length; lia). cbn [bind]. rewrite Hck. cbn [rev]. reflexivity.
+  - (* FNameX *)
+    cbn [rd_em] in H. apply bind_ok in H. destruct H as ([e1 t1] & H1 & H).
+    apply bind_ok in H. destruct H as ([e2 t2] & H2 & H). injection H as <- <-. cbn [fst snd] in *.
+    inversion PO as [|? ? NW PO']; subst. cbn [piece_wf] in NW.
+    destruct (name_wf_full o n OO NW) as (L & HF & NOL).
+    destruct (nm_em_sound_sim _ _ _ _ _ _ _ _ TS HF NOL H1) as (TS1 & L' & SL & NO1 & D1).
+    destruct (name_back_sim o n L L' _ _ OO NW HF SL NO1) as (n' & X & HRZ & CI1 & NW1 & HFX & SX).
+    assert (n' = n).
+    { cbn [Lsim] in SX. subst X. exact (full_labels_inj o n n' L NW NW1 CI1 HF HFX). }
+    subst n'.
+    rewrite <- zlen_app' in H2.
+    destruct (IH c (file ++ e1) t1 e2 t2 TS1 PO' H2) as (TS' & rd' & CI & PO2 & S' & RD & RE).
+    rewrite <- app_assoc in TS'. split; [exact TS'|]. exists (PX n :: rd').
+    split; [constructor; [reflexivity|exact CI]|]. split; [constructor; [exact NW1|exact PO2]|].
+    split; [constructor; exact S'|].
+    split; [|intros tq TC; destruct (nm_em_resim n n o false (zlen file) tq t e1 t1 L L TC HF HF eq_refl H1) as (tq1 & E1 & TC1); destruct (RE tq1 TC1) as (tq' & E2 & TC'); exists tq'; split; [|exact TC']; cbn [rd_em]; rewrite E1; cbn [bind fst snd]; rewrite <- zlen_app'; rewrite E2; reflexivity].
+    intros ext acc. cbn [dec_fields]. rewrite (get_name_relz o _ _ _ OO).
+    replace ((file ++ e1 ++ e2) ++ ext) with ((file ++ e1) ++ (e2 ++ ext)) by (rewrite <- !app_assoc; reflexivity).
+    rewrite (nm_read file e1 (e2 ++ ext) _ L' NO1 D1) by (rewrite !app_length; lia). cbn [bind fst snd].
+    rewrite HRZ. cbn [bind fst snd].
+    replace ((file ++ e1) ++ e2 ++ ext) with (((file ++ e1) ++ e2) ++ ext) by (rewrite <- !app_assoc; reflexivity).
+    replace (length (file ++ e1 ++ e2)) with (length ((file ++ e1) ++ e2)) by (rewrite <- app_assoc; reflexivity).
+    rewrite RD. cbn [rev]. rewrite <- app_assoc. reflexivity.
 Qed.
 
 (* ---------- one RR ---------- *)
